@@ -27,7 +27,8 @@ MONITORS = ["asset_lookup", "exists", "repeat_read", "pack_banner", "simfile_fro
 REQUIRED = ["directory_path_not_normalized", "entry_matches_two_kinds", "multi_dot_name", "specified_other_case", "specified_in_subdir_other_case", "specified_missing_with_pattern_match",
             "specified_missing_subdir_with_pattern_match", "specified_missing_no_match", "pattern_hit", "near_miss_only",
             "no_match_none", "pack_banner_inside", "pack_banner_beside", "pack_banner_none", "pack_sibling_prefix_name", "pack_path_is_a_single_relative_component",
-            "native", "memory", "simfile_read_from_directory_holding_sm_and_ssc", "simfile_read_from_directory_holding_only_sm"]
+            "native", "memory", "simfile_read_from_directory_holding_sm_and_ssc", "simfile_read_from_directory_holding_only_sm",
+            "named_path_goes_through_a_regular_file", "pack_name_with_regex_metacharacters"]
 
 IMAGE = [".png", ".jpg", ".jpeg", ".gif", ".bmp"]
 AUDIO = [".mp3", ".oga", ".ogg", ".wav"]
@@ -132,6 +133,9 @@ def cases(ctx):
                 props[k] = "gfx/" + rng.choice(["missing.png", "nothere.ogg"])  # existing sub-directory, missing file
             elif r < 0.8:
                 props[k] = rng.choice(["missing.png", "nothere.ogg", "Banner2.png"])
+            elif r < 0.86 and files:
+                # a path that goes THROUGH an existing regular file: no such file exists, the pattern match (or None) answers
+                props[k] = rng.choice(sorted(files)) + "/" + rng.choice(["banner.png", "x.ogg", "bg/back.png"])
             elif r < 0.92:
                 props[k] = rng.choice(["nodir/x.png", "gfx2/banner.png", "GFX/banner.png"])
             else:
@@ -147,7 +151,7 @@ def cases(ctx):
 
 
 def gen_pack(rng):
-    pack = rng.choice(["DDR", "Mix", "My Pack", "a.b"])
+    pack = rng.choice(["DDR", "Mix", "My Pack", "a.b", "DDR (AC)", "[Speed] Pack", "C++ Pack", "What?", "Mix^2 $5", "a|b", "Pack{2}", "x*"])
     inside = {}
     for _ in range(rng.choice([0, 0, 1, 2, 3])):
         inside[rng.choice(["banner", "x", pack, "zz"]) + rng.choice(IMAGE + [".PNG", ".JpG", ".txt", ".png.txt"])] = "other"
@@ -269,6 +273,8 @@ def check_dir(ctx, case, t):
         ctx.mon("asset_lookup")
         spec = case["props"].get(k)
         named = []
+        if spec and any(p in song["files"] for p in [x for x in spec.split("/") if x != "."][:-1]):
+            ctx.feat("named_path_goes_through_a_regular_file")
         if spec:
             parts = [x for x in spec.split("/") if x != "."]
             d = song
@@ -344,6 +350,8 @@ def check_pack(ctx, case, t):
 
     pack = case["pack"]
     pdir = t.join(t.root, pack)
+    if any(ch in pack for ch in "()[]{}+*?^$|"):
+        ctx.feat("pack_name_with_regex_metacharacters")
     if case.get("relative"):
         # the same pack seen from a filesystem rooted at its parent: the pack path is one relative component
         from fs.subfs import SubFS
